@@ -204,3 +204,84 @@ def op_irfuncs(task):
 
 
 OPS["irfuncs"] = op_irfuncs
+
+
+def op_operator_batch(task):
+    """C11: apply the real dunder methods to tensors built from the specification's packed arrays."""
+    import operator
+
+    ops = {"+": operator.add, "-": operator.sub, "*": operator.mul, "@": operator.matmul}
+    outs = []
+    for c in task["cases"]:
+        sys.stdout.write("@@" + json.dumps({"id": task["id"], "progress": c["cid"]}) + "\n")
+        sys.stdout.flush()
+        try:
+            left = c["left"]["number"] if "number" in c["left"] else _tensor(c["left"])
+            right = c["right"]["number"] if "number" in c["right"] else _tensor(c["right"])
+            r = ops[c["op"]](left, right)
+            outs.append({"cid": c["cid"], "out": _raw(r)})
+        except Exception as e:  # noqa: BLE001
+            outs.append({"cid": c["cid"], "exc": type(e).__name__, "msg": str(e)[:200]})
+    return {"outs": outs}
+
+
+OPS["operator_batch"] = op_operator_batch
+
+
+class _EntryRecorder:
+    """Wraps the compiled function pointer of a TensorMethod: notes that the kernel was entered."""
+
+    entered = False
+
+    def __init__(self, inner):
+        self.inner = inner
+
+    def __call__(self, *a):
+        _EntryRecorder.entered = True
+        return self.inner(*a)
+
+
+def op_call_batch(task):
+    """C10: replay argument vectors into tensor_method(...)(...) and evaluate(...), recording kernel entry."""
+    import tensora
+    import tensora.compile._porcelain as porc
+    from tensora import Tensor
+
+    orig = porc.cachable_tensor_method
+    if not getattr(orig, "_vf_wrapped", False):
+        def wrapped(problem, backend):
+            tm = orig(problem, backend)
+            if not isinstance(tm._evaluate, _EntryRecorder):
+                tm._evaluate = _EntryRecorder(tm._evaluate)
+            return tm
+
+        wrapped._vf_wrapped = True
+        porc.cachable_tensor_method = wrapped
+
+    def fmt(a):
+        return "".join(m + str(o) for m, o in zip(a["modes"], a["ordering"]))
+
+    outs = []
+    for c in task["cases"]:
+        sys.stdout.write("@@" + json.dumps({"id": task["id"], "progress": c["cid"]}) + "\n")
+        sys.stdout.flush()
+        kwargs = {}
+        for nm, a in c["args"].items():
+            kwargs[nm] = Tensor.from_dok({}, dimensions=tuple(a["dims"]), format=fmt(a)) if a["tensor"] else 3.5
+        pos = [Tensor.from_dok({}, dimensions=(2,), format="d")] if c["positional"] else []
+        _EntryRecorder.entered = False
+        try:
+            if c["entry"] == "method":
+                fn = tensora.tensor_method(c["text"], c["formats"])
+                r = fn(*pos, **kwargs)
+            else:
+                r = tensora.evaluate(c["text"], c["output_format"], *pos, **kwargs)
+            outs.append({"cid": c["cid"], "returned": True, "entered": _EntryRecorder.entered,
+                         "result_dims": list(r.dimensions)})
+        except Exception as e:  # noqa: BLE001
+            outs.append({"cid": c["cid"], "returned": False, "entered": _EntryRecorder.entered,
+                         "exc": type(e).__name__, "msg": str(e)[:160]})
+    return {"outs": outs}
+
+
+OPS["call_batch"] = op_call_batch
